@@ -14,7 +14,7 @@ def run(ctx, replay):
         q = ctx.quick()
         out = ctx.sub("camp")
         args = ["campaign", "-cli", ctx.cli(), "-node", runcamp.NODE22, "-runts", runcamp.RUNTS, "-out", out, "-seed", ctx.seed,
-                "-shards", 4, "-par", 16, "-vet", "-corpus", runcamp.conf.CORPUS, "-nfeat", 50 if q else 700, "-nrand", 16 if q else 200,
+                "-shards", 4, "-par", 16, "-vet", "-corpus", runcamp.conf.CORPUS, "-nfeat", 50 if q else 700, "-featctrl", "-nlong", 8 if q else 60, "-nrand", 16 if q else 200,
                 "-nexpr", 6 if q else 60, "-valued", 50, "-limit", 30, "-nrandom", 6]
         r = ctx.vh(args, timeout=3300)
         log(r.stdout.strip().splitlines()[-1])
@@ -51,7 +51,7 @@ def run(ctx, replay):
     ctx.cov["vet_complaints_recorded_not_judged"] = vet
     ctx.cov["rule"] = ("each (grammar, variant) is one case: generated through the CLI, then `go build` (Go variants) or loaded under node "
                        "22 after type stripping (TypeScript); population = corpus + random + operator grammars + surface-feature grammars "
-                       "(identifier shapes incl. digits/underscores/non-ASCII letters, printable ASCII literals, rule lengths 0..6, "
+                       "(identifier shapes incl. digits/underscores/non-ASCII letters, printable ASCII literals plus tab and line feed, rule lengths 0..6, "
                        "tag mixes, with and without union/precedence); non-trivial = variants that generated and built")
     ctx.cov["samples"] += [{"id": cr["id"], "variants": [(v["variant"], v["gen_exit"], v["build_ok"]) for v in cr["variants"]]} for cr in recs[:3]]
     ctx.assumptions += ["no tsc in the sandbox: TypeScript is loaded after node's own type stripping, not type-checked",
